@@ -21,6 +21,7 @@ class Item:
     value: Any
     raw: Any
     calibrated: bool = False  # value went through float arithmetic (tolerance applies)
+    scale: float = 0.0  # magnitude of the operands of that arithmetic (absolute tolerance = a few eps * scale)
     start: int = 0
     width: int = 0
 
@@ -100,30 +101,40 @@ def frac(x):
     return Fraction(x)
 
 
-def calibrate(cal, raw) -> float:
+def calibrate(cal, raw):
+    """Exact evaluation.  Returns (value rounded once, magnitude scale of the operands).
+
+    The scale bounds the size of the intermediate terms; comparisons allow an absolute error of a few
+    rounding units *of that scale*, so that any reasonable evaluation order of a correct implementation
+    (Horner, slope-first, ...) passes even when terms cancel."""
     x = frac(raw)
     if isinstance(cal, Poly):
-        return float(sum(Fraction(c) * x ** e for c, e in cal.terms))
+        terms = [Fraction(c) * x ** e for c, e in cal.terms]
+        return float(sum(terms)), float(sum(abs(t) for t in terms))
     pts = sorted((Fraction(r), Fraction(c)) for r, c in cal.points)
     xs = [p[0] for p in pts]
     ys = [p[1] for p in pts]
     lo, hi = xs[0], xs[-1]
+
+    def line(a, b):
+        v = ys[a] + (ys[b] - ys[a]) * (x - xs[a]) / (xs[b] - xs[a])
+        return float(v), float(abs(ys[a]) + abs(ys[b]) + abs((ys[b] - ys[a]) * (x - xs[a]) / (xs[b] - xs[a])))
     if lo <= x <= hi:
         if cal.order == 0:
             i = max(j for j in range(len(xs)) if xs[j] <= x)
-            return float(ys[i])
+            return float(ys[i]), float(abs(ys[i]))
         if x == hi:
-            return float(ys[-1])
+            return float(ys[-1]), float(abs(ys[-1]) + (abs(ys[-2]) if len(ys) > 1 else 0))
         i = max(j for j in range(len(xs) - 1) if xs[j] <= x)
-        return float(ys[i] + (ys[i + 1] - ys[i]) * (x - xs[i]) / (xs[i + 1] - xs[i]))
+        return line(i, i + 1)
     if not cal.extrapolate:
         raise RefRaise("spline query outside the point range without extrapolation", ("CalibrationError",))
     if cal.order == 0:
-        return float(ys[-1] if x > hi else ys[0])
+        v = ys[-1] if x > hi else ys[0]
+        return float(v), float(abs(v))
     if len(pts) < 2:
         raise RefUnspecified("first-order extrapolation with a single point")
-    a, b = (len(xs) - 2, len(xs) - 1) if x > hi else (0, 1)
-    return float(ys[a] + (ys[b] - ys[a]) * (x - xs[a]) / (xs[b] - xs[a]))
+    return line(len(xs) - 2, len(xs) - 1) if x > hi else line(0, 1)
 
 
 # ----------------------------------------------------------------------------- criteria
@@ -408,9 +419,11 @@ def decode_param(doc: Doc, pname: str, cur: Cursor, env: Env) -> Item:
     ctx, default = numeric_calibrators(pt)
     for cc in ctx:
         if eval_criteria(cc.match, env, current_raw=raw):
-            return Item(pname, calibrate(cc.cal, raw), raw, calibrated=True, start=start, width=enc.bits)
+            v, sc = calibrate(cc.cal, raw)
+            return Item(pname, v, raw, calibrated=True, scale=sc, start=start, width=enc.bits)
     if default is not None:
-        return Item(pname, calibrate(default, raw), raw, calibrated=True, start=start, width=enc.bits)
+        v, sc = calibrate(default, raw)
+        return Item(pname, v, raw, calibrated=True, scale=sc, start=start, width=enc.bits)
     return Item(pname, raw, raw, start=start, width=enc.bits)
 
 
